@@ -8,7 +8,7 @@ ids=("$@"); [ ${#ids[@]} -eq 0 ] && ids=($(ls seeded | grep -E '^C[0-9]+-[A-Z]$'
 WT=/dev/shm/mut/sweep-$$; mkdir -p /dev/shm/mut
 git -C /repo worktree add --detach "$WT" HEAD -f >/dev/null 2>&1 || { echo "cannot create worktree"; exit 3; }
 trap 'git -C /repo worktree remove --force "$WT" >/dev/null 2>&1; rm -rf "$WT"' EXIT
-declare -A EXTRA=( [C01-B]="C11" [C03-A]="C14" [C05-C]="C14" [C01-D]="C11" [C02-D]="C01" [C05-F]="C14" )
+declare -A EXTRA=( [C01-B]="C11" [C03-A]="C14" [C05-C]="C14" [C01-D]="C11" [C02-D]="C01" [C05-F]="C14" [C06-G]="C11" )
 [ -n "${SWEEP_EXTRA:-}" ] && for id in "${ids[@]}"; do EXTRA[$id]="${EXTRA[$id]:-} $SWEEP_EXTRA"; done
 OUT=/dev/shm/mut/sweep-$$.jsonl; : > $OUT
 for id in "${ids[@]}"; do
